@@ -72,7 +72,7 @@ WAITING = ("old(0 <= head.position and head.position < llen(%s.elements) and not
            "    is_inst(item(%s.elements, head.position), 'SpecOp') and item(%s.elements, head.position).op == 'match')" % (CFG, CFG, CFG, CFG))
 
 contract(
-    SM, "_flow_head_changed", prop="C09",
+    SM, "_flow_head_changed", prop="C09", must_reach=["_add_head_to_event_matching_structures(state, flow_state, head)"],
     requires=STATE + SHAPES + [
         "all(is_str(n) for n in keys(state.event_matching_heads))",
         "all(val(state.event_matching_heads, n) is not state.event_matching_heads and "
